@@ -42,6 +42,7 @@ type Solver struct {
 	restarts int
 	lines    chan string
 	dead     bool
+	onRestart func()
 }
 
 func solverArgv(kind string, timeoutMs int) []string {
@@ -120,6 +121,9 @@ func (s *Solver) restart() {
 	s.restarts++
 	if err := s.start(); err != nil {
 		panic(err)
+	}
+	if s.onRestart != nil {
+		s.onRestart()
 	}
 }
 
